@@ -184,6 +184,37 @@ CHECKS = {
         "trusts the harness ar/tar builders (cross-checked with dpkg-deb --build); duplicate member "
         "names are not generated; which error an absent name raises is not prescribed",
         "DESIGN.md 4/C07"),
+    "C04": (
+        "Hypothesis over a structure-generated deb-changelog(5) grammar (blocks, extra keys, "
+        "urgency comments, look-alike change lines, date variants) in six input forms; oracle: "
+        "strict parse succeeds without warning, str() == text byte for byte, every parsed "
+        "attribute == what the generator wrote",
+        "generated-input search with a round-trip oracle plus attribute-by-attribute comparison "
+        "with the generated structure; a search, not a proof",
+        "texts come from the harness grammar (plain concatenation, an independent recogniser guards "
+        "the domain); printable characters plus TAB where the format allows it",
+        "DESIGN.md 4/C04"),
+    "C09": (
+        "bounded-exhaustive enumeration of all <=3-step (thorough <=4/5) histories over Deb822, "
+        "OrderedSet and LinkedList + Hypothesis op-list histories from 13 start states "
+        "(+ RuleBasedStateMachine in thorough); oracle: ordered case-insensitive list model "
+        "compared after every step, retired copies re-observed",
+        "model-based generated-input search: a plain list-of-[spelling, value] model is compared "
+        "with the mapping (keys, spelling, order, values, dump, lookups in any case, error behaviour) "
+        "after every operation; short histories are enumerated completely; a search, not a proof",
+        "trusts vcheck/model/c09_cilist.py; copying means the mapping's own copy() (copy.deepcopy/"
+        "pickle are outside the domain); popitem may remove any pair",
+        "DESIGN.md 4/C09"),
+    "C15": (
+        "bounded enumeration of every junk-pool line at every position of a fixed changelog + "
+        "Hypothesis line mutations of well-formed changelogs and editing histories (+ Atheris in "
+        "thorough); oracle: lenient never raises, strict raises iff lenient warns (same message), "
+        "formatted output re-parses to the same blocks and is a fixpoint, after every edit",
+        "generated-input search with validity/consistency predicates (totality, strict<->warning "
+        "equivalence, normal-form fixpoint); all 13 warning classes are reached; a search, not a proof",
+        "ChangelogCreateError from str() means 'cannot be formatted'; the formatted text is "
+        "re-parsed in the same input form; max_blocks is not covered",
+        "DESIGN.md 4/C15"),
 }
 
 NOT_YET = "check not built yet in this round (planned; see DESIGN.md section 4)"
